@@ -350,7 +350,7 @@ pub fn make_vcase(seed: u64, prop: &str, index: u64) -> (VCase, Chooser, Rng) {
     let mut c = Chooser::random(Rng::from_parts(&[seed, 0xE3, index]));
     // C16's quantifier is the virtual clock with spawn failures; the in-nurse elapse models the
     // race of finding K2 and belongs to C01 (data before the greeting)
-    let allow_j = prop == "C01" || prop == "C17";
+    let allow_j = prop == "C01" || prop == "C17" || prop == "C16";
     let case = gen_vcase(&mut c, allow_j);
     (case, c, Rng::from_parts(&[seed, 0xE3E3, index]))
 }
